@@ -96,6 +96,16 @@ func recovery(idx int64, r *rand.Rand) {
 	if kind == "gradient" && r.IntN(8) == 0 {
 		spec.ProbeInt = limit.ProbeDisabled // no "next probe": the healthy run must climb and stay up however long it is
 	}
+	if kind != "aimd" && r.IntN(4) == 0 {
+		spec.Debug = true // a logger with debug enabled must not change what the algorithm does
+		rt.Count("recovery_runs_with_a_debug_logger", 1)
+	}
+	incBy := spec.IncBy
+	if kind == "aimd" && r.IntN(6) == 0 {
+		spec.IncBy = []int{0, -1}[r.IntN(2)] // "give me the default" increment: 1
+		incBy = 1
+		rt.Count("aimd_recovery_runs_with_the_default_increment", 1)
+	}
 	l := spec.New(nil, "c07")
 	hist := prefix(r, l, r.IntN(150))
 	e0 := l.EstimatedLimit()
@@ -112,7 +122,7 @@ func recovery(idx int64, r *rand.Rand) {
 			hist = append(hist, s)
 			after := l.EstimatedLimit()
 			rt.Count("healthy_samples", 1)
-			if after != before+spec.IncBy {
+			if after != before+incBy {
 				viol("saturated-sample-did-not-add-increment", rt.J{"before": before, "after": after, "sample": s})
 				return
 			}
